@@ -251,7 +251,10 @@ def ginit (d : DS) (t : Toks) : MatN Q × Toks :=
 def cosSinApprox (x : Q) : Q × Q :=
   let scale : Nat := 2 ^ 100
   let rnd := fun (r : Q) => mkRat ((r * scale).floor) scale
-  let x := rnd x
+  -- range reduction with a 60-digit value of 2π (the iterative solvers may return many turns)
+  let twoPi : Q := mkRat 6283185307179586476925286766559005768394338798750211641949889 (10 ^ 60)
+  let k := (x / twoPi + 1 / 2).floor
+  let x := rnd (x - twoPi * k)
   let x2 := rnd (x * x)
   -- sum_{k} (-1)^k x^{2k}/(2k)!  and  x^{2k+1}/(2k+1)!
   let (c, s, _, _) := (List.range 40).foldl (fun (acc : Q × Q × Q × Q) k =>
@@ -431,6 +434,70 @@ def doCsCall (d : DS) (name : String) (t : Toks) : Option (DS × String) :=
         some (let k := nd.qIdx; st.q k * st.q k + st.q (k+1) * st.q (k+1) + st.q (k+2) * st.q (k+2) + st.q nd.wIdx * st.q nd.wIdx)
       else none)
     some (also (also r d "CAQ.unit.lhs" (showList qn)) d "CAQ.unit.rhs" (showList (qn.map (fun _ => 1))))
+  | "IK1" =>
+    let r := out d name (" ".intercalate d.impl)
+    if d.impl.isEmpty then some r else
+    let nonfinite := (d.impl.filter (fun s => (parseRat s).isNone)).length
+    let r := also (also r d "IK1.finite.lhs" (toString nonfinite)) d "IK1.finite.rhs" "0"
+    let (stepTol, t) := t.rat; let (_, t) := t.rat; let (_, t) := t.nat; let (np, t) := t.nat
+    if d.impl.headD "0" ≠ "1" || nonfinite ≠ 0 then some r else
+    let Qv := (d.impl.drop 1).map (fun s => (parseRat s).getD 0)
+    let cs := Qv.map cosSinApprox
+    let st : Spec.State Q := ⟨fun i => Qv.getD i 0, fun i => (cs.getD i (1, 0)).1, fun i => (cs.getD i (1, 0)).2,
+                               fun _ => 0, fun _ => 0⟩
+    let M := d.specModel
+    let (res2, _) := (List.range np).foldl (fun (acc : Q × Toks) _ =>
+      let (a, t) := acc
+      let (b, t) := t.nat; let (p, t) := t.v3; let (tg, t) := t.v3
+      let e := tg - Spec.bodyToBase M st b p
+      (a + e.dot e, t)) (0, t)
+    some (also r d "IK1.res.info" (showRat res2 ++ " " ++ showRat (stepTol * stepTol)))
+  | "IK2" =>
+    let r := out d name (" ".intercalate d.impl)
+    if d.impl.isEmpty then some r else
+    let nonfinite := (d.impl.filter (fun s => (parseRat s).isNone)).length
+    let r := also (also r d "IK2.finite.lhs" (toString nonfinite)) d "IK2.finite.rhs" "0"
+    let sizeOk := d.impl.length = 7 + m.qSize
+    let r := also (also r d "IK2.size.lhs" (if sizeOk then "1" else "0")) d "IK2.size.rhs" "1"
+    if nonfinite ≠ 0 || !sizeOk then some r else
+    let iv := d.impl.map (fun s => (parseRat s).getD 0)
+    let ok := d.impl.headD "0" = "1"
+    let en := iv.getD 2 0; let ok2 := iv.getD 4 0; let en2 := iv.getD 5 0; let dq2 := iv.getD 6 0
+    let (_, t) := t.rat; let (_, t) := t.nat; let (stepTol, t) := t.rat; let (cTol, t) := t.rat
+    let (ncons, t) := t.nat
+    if !ok then some r else
+    let Qv := iv.drop 7
+    let cs := Qv.map cosSinApprox
+    let st : Spec.State Q := ⟨fun i => Qv.getD i 0, fun i => (cs.getD i (1, 0)).1, fun i => (cs.getD i (1, 0)).2,
+                               fun _ => 0, fun _ => 0⟩
+    let M := d.specModel
+    let sq := fun (x : Q) => x * x
+    let (res2, oriMax, allPoint, _) := (List.range ncons).foldl (fun (acc : Q × Q × Bool × Toks) _ =>
+      let (a, om, ap, t) := acc
+      let (kind, t) := t.next; let (b, t) := t.nat; let (p, t) := t.v3; let (tg, t) := t.v3
+      let (R, t) := t.m3; let (wgt, t) := t.rat
+      let e := tg - Spec.bodyToBase M st b p
+      let pos2 := match kind with
+        | "p" | "f" => wgt * wgt * e.dot e
+        | "xy" => wgt * wgt * (sq e.x + sq e.y)
+        | "z" => wgt * wgt * sq e.z
+        | _ => 0
+      let O := Spec.orientation M st b
+      let diff := [O.m00 - R.m00, O.m01 - R.m01, O.m02 - R.m02, O.m10 - R.m10, O.m11 - R.m11, O.m12 - R.m12,
+                   O.m20 - R.m20, O.m21 - R.m21, O.m22 - R.m22]
+      let om' := if kind = "o" || kind = "f" then diff.foldl (fun mx x => if sq x > mx then sq x else mx) om else om
+      (a + pos2, om', ap && (kind = "p" || kind = "xy" || kind = "z"), t)) (0, 0, true, t)
+    let r := if allPoint then
+        also (also r d "IK2.res.lhs" (showRat res2)) d "IK2.res.rhs" (showRat (en * en))
+      else
+        also (also r d "IK2.res.lhs" (showRat (if res2 > en * en then res2 - en * en else 0) ++ " " ++
+              showRat (if en < cTol then oriMax else 0))) d "IK2.res.rhs" "0 0"
+    let r := if ok2 = 0 then
+        also (also r d "IK2.tol.lhs" (showRat (if en2 < cTol then en2 else cTol) ++ " " ++
+              showRat (if dq2 < stepTol then dq2 else stepTol))) d "IK2.tol.rhs" (showRat cTol ++ " " ++ showRat stepTol)
+      else if ok2 = 1 then also (also r d "IK2.tol.lhs" "1") d "IK2.tol.rhs" "0"
+      else r
+    some r
   | _ => none
 
 
